@@ -146,6 +146,8 @@ pub fn scenario(rng: &mut Rng) -> Vec<VIn> {
             if rng.chance(1, 6) { g.push(VIn::Block(s, h + 1, parent)); }
             groups.push(g);
             if rng.chance(3, 4) { groups.push(vec![VIn::Pool(PE::Cert { slot: s, kind: CK::Notar, hash: if rng.chance(9, 10) { h } else { h + 1 } })]); }
+            // a notar-fallback certificate (often WITHOUT a notarization certificate: it must not count as one)
+            if rng.chance(1, 4) { groups.push(vec![VIn::Pool(PE::Cert { slot: s, kind: CK::NotarFb, hash: if rng.chance(3, 4) { h } else { h + 1 } })]); }
             if rng.chance(1, 3) { groups.push(vec![VIn::Pool(PE::Cert { slot: s, kind: if rng.chance(1, 2) { CK::Final } else { CK::FastFinal }, hash: h })]); }
             if rng.chance(1, 6) { groups.push(vec![VIn::Pool(PE::SafeToNotar((s, h + 1)))]); }
             if rng.chance(1, 8) { groups.push(vec![VIn::Pool(PE::SafeToSkip(s))]); }
@@ -203,7 +205,7 @@ pub fn gen_c05(seed: u64, tier: Tier) -> CaseSet {
         descr.push(format!("case {}: {} validators, own {}, {} events, {} own votes", cid, stakes.len(), own, ins.len(), nvotes));
         cases.push(txt);
     }
-    stats.rule = "Votor event sequences over 4-14 slots: per slot a leader block (sometimes two, sometimes with a foreign parent), first-shred, notar / final / fast-final / skip certificates (sometimes for another hash), timeouts (regular and crashed-leader), invalid-block, parent-ready announcements (also stale ones), SafeToNotar / SafeToSkip (plausible and hostile), standstill bundles with arbitrary contents; groups locally reordered (children before parents, certificates before blocks, events for pruned windows); non-trivial = the node cast at least two votes; distinct by full trace".into();
+    stats.rule = "Votor event sequences over 4-14 slots: per slot a leader block (sometimes two, sometimes with a foreign parent), first-shred, notar / notar-fallback / final / fast-final / skip certificates (sometimes for another hash, notar-fallback often without a notarization certificate), timeouts (regular and crashed-leader), invalid-block, parent-ready announcements (also stale ones), SafeToNotar / SafeToSkip (plausible and hostile), standstill bundles with arbitrary contents; groups locally reordered (children before parents, certificates before blocks, events for pruned windows); non-trivial = the node cast at least two votes; distinct by full trace".into();
     let mut kc: Vec<_> = kind_count.into_iter().collect(); kc.sort();
     stats.distribution.push(("event_kinds".into(), kc.iter().map(|(k, c)| format!("{}={}", k, c)).collect::<Vec<_>>().join(", ")));
     stats.distribution.push(("own_votes_total".into(), format!("{}", total_votes)));
